@@ -68,6 +68,9 @@ CLAIMED = {
     "C18": ("other", "DESIGN.md#c18", "symbolic execution of repair.fix_winding / fix_inversion / fix_normals / fill_holes and remesh.subdivide / subdivide_to_size / subdivide_loop on solids with symbolic coordinates; re-wound / removed / subdivided face subsets are solver variables (forked), the size bound a symbolic real split by the code's own comparisons; z3 decides the numeric obligations",
             "Every subset of re-wound faces (and every starting corner of each face) of a tetrahedron and of two disjoint tetrahedra with symbolic apexes is repaired by the real fix_normals and each face must come back as a cyclic rotation of its outward original, with no vertex moved and positive signed volume per body (z3, all coordinates); every single missing triangle / cube side is closed by fill_holes with the outward winding and the solid's volume; subdivision keeps the original vertices as a prefix, tiles every face (vector areas add up, each child a parallel quarter), keeps the volume and, for all faces, watertightness and Euler number; subdivide_to_size leaves no edge above ANY bound in the stated interval.",
             TRUSTED + "catalogue solids (genus 0); bounds of subdivide_to_size limited to <= 2 rounds in the quick tier; subdivide_loop: topology only; stitch and higher genus not claimed."),
+    "C15": ("other", "DESIGN.md#c15", "symbolic execution of creation.box / revolve / cylinder / cone / annulus / capsule / uv_sphere / torus and primitives.Box / Cylinder / Sphere with symbolic radii, heights, extents and placement offsets; section counts forked by the solver; z3 decides volume / bounds / inertia identities and positivity for all parameter values",
+            "For every section count in the stated range the angle grid is constant, so vertices are linear in the real parameters: z3 proves that the signed volume (divergence formula over the real mesh) is positive and equals the inscribed prism / pyramid value computed on the same grid, that mesh.volume, bounds, box area and box inertia are the analytic ones, under no placement, translation, catalogue rotation and mirrored placements; topology (watertight, consistent winding, Euler number) is exact per count; a primitive whose parameters are edited (before or after its mesh was read) has exactly the mesh of a freshly built primitive.",
+            TRUSTED + "parameters in [0.5,4]; counts 3..6 (quick) / 3..12 (thorough); sphere-like shapes on their smallest grids; scalar primitive parameters from a catalogue (builtin float()); shapely / earcut based constructors and icosphere volume not claimed."),
 }
 
 NOT_APPLICABLE = {
